@@ -638,7 +638,7 @@ impl Prop for Cong {
         let cheap = name.ends_with("^1") || ["MICRO^2", "SAME^2", "SHARE^2", "A0^2", "MICRO^3", "SAME^3", "CASC^2", "CASC^3", "TERN^2", "CASE^2"].contains(&name.as_str()) || (tier == Tier::Thorough && ["CORE^2", "BIND^2", "T3^2", "SELF^2"].contains(&name.as_str()));
         if cheap {
             // ... and with a non-trivial analysis attached (naming NumericOff(0) stands for "numeric names, min-size analysis")
-            cong_exec_named(&ops, flips, self.sound, !self.sound, &[Naming::Numeric, Naming::FreshNext, Naming::TextRev, WITH_ANALYSIS])
+            cong_exec_named(&ops, flips, self.sound, !self.sound, &[Naming::Numeric, Naming::FreshNext, Naming::TextRev, Naming::ParsedPadded, WITH_ANALYSIS])
         } else {
             cong_exec(&ops, flips, self.sound, !self.sound)
         }
